@@ -80,11 +80,12 @@ def dec2dms(x):
         sign = '-'
     else:
         sign = '+'
-    x = abs(x)
-    d = int(math.floor(x))
-    m = int(math.floor((x - d) * 60))
-    s = float(((x - d) * 60 - m) * 60)
-    return '{0}{1:02d}:{2:02d}:{3:05.2f}'.format(sign, d, m, s)
+    # work in integer units of the last printed digit (0.01 arcsec) so that
+    # no field can round up to 60
+    total = int(round(abs(x) * 3600 * 100))
+    d, rem = divmod(total, 3600 * 100)
+    m, s = divmod(rem, 60 * 100)
+    return '{0}{1:02d}:{2:02d}:{3:05.2f}'.format(sign, d, m, s / 100.0)
 
 
 def dec2hms(x):
@@ -108,11 +109,14 @@ def dec2hms(x):
     if x < 0:
         x += 360
     x /= 15.0
-    h = int(x)
-    x = (x - h) * 60
-    m = int(x)
-    s = (x - m) * 60
-    return '{0:02d}:{1:02d}:{2:05.2f}'.format(h, m, s)
+    # work in integer units of the last printed digit (0.01 sec) so that
+    # no field can round up to 60
+    total = int(round(x * 3600 * 100))
+    h, rem = divmod(total, 3600 * 100)
+    m, s = divmod(rem, 60 * 100)
+    # RA is periodic: 24h == 0h
+    h %= 24
+    return '{0:02d}:{1:02d}:{2:05.2f}'.format(h, m, s / 100.0)
 
 
 # The following functions are explained at
